@@ -53,6 +53,24 @@ def build_model(start, stop, dt, name="g"):
     return m
 
 
+class Watchdog:
+    """raise TimeoutError in the main thread when the real code does not come back (a change that stops
+    `normalize` from advancing makes `timerange` loop for ever)."""
+    def __init__(self, secs):
+        self.secs = secs
+    def _fire(self, *a):
+        raise TimeoutError()
+    def __enter__(self):
+        import signal
+        self.old = signal.signal(signal.SIGALRM, self._fire)
+        signal.setitimer(signal.ITIMER_REAL, self.secs)
+    def __exit__(self, *a):
+        import signal
+        signal.setitimer(signal.ITIMER_REAL, 0)
+        signal.signal(signal.SIGALRM, self.old)
+        return False
+
+
 class Bptk:
     """bptk() object that is always destroyed."""
     def __enter__(self):
@@ -238,6 +256,15 @@ KEYS = {"timerange-incl": "timerange-labels", "timerange-excl": "timerange-label
 def run(chk):
     quiet_bptk_logging()
     t_start = time.time()
+    try:
+        with Watchdog(20):
+            from BPTK_Py.util import timerange as _tr
+            _tr(0.0, 0.3, 0.1, exclusive=False); _tr(1000.1, 1000.103, 0.001); _tr(0.05, 0.25, 0.05, exclusive=False)
+    except TimeoutError:
+        chk.add_finding("time-grid-no-termination", "util.timerange does not terminate on a three-step grid "
+                        "(one of (0,0.3,0.1), (1000.1,1000.103,0.001), (0.05,0.25,0.05))",
+                        {"channel": "timerange-incl", "start": "0", "dt": "0.1", "n": 3, "timeout_s": 20})
+        return
     facts = probe()
     chk.notes["cfg"] = {k: v for k, v in facts.items()}
     cb = cfg_bits(facts)
@@ -287,7 +314,13 @@ def run(chk):
             for n in ns_all:
                 for excl in (False, True):
                     ch = "timerange-excl" if excl else "timerange-incl"
-                    obs, exp = check_channel(ch, start, dt, n)
+                    try:
+                        with Watchdog(20):
+                            obs, exp = check_channel(ch, start, dt, n)
+                    except TimeoutError:
+                        chk.add_finding("time-grid-no-termination", f"util.timerange does not terminate: start={start} dt={dt} n={n} exclusive={excl}",
+                                        {"channel": ch, "start": start, "dt": dt, "n": n, "timeout_s": 20})
+                        return
                     add(f"timerange {start} {stops[n]} {dt} {1 if excl else 0}", obs, (ch, start, dt, n))
                     ref(ch, start, dt, n, obs, exp)
                     dist["timerange"] += 1
@@ -374,7 +407,12 @@ def replay(path):
     if "channel" not in r:
         print("replay names an obligation / correspondence stream, no input to re-run:", r)
         return 1
-    obs, exp = check_channel(r["channel"], r["start"], r["dt"], r["n"], r.get("calls"))
+    try:
+        with Watchdog(r.get("timeout_s", 120)):
+            obs, exp = check_channel(r["channel"], r["start"], r["dt"], r["n"], r.get("calls"))
+    except TimeoutError:
+        print(f"channel={r['channel']} start={r['start']} dt={r['dt']} n={r['n']}: no answer within the time limit — still failing")
+        return 1
     print(f"channel={r['channel']} start={r['start']} dt={r['dt']} n={r['n']}")
     print("observed:", obs[:600])
     print("expected:", exp[:600])
